@@ -25,13 +25,13 @@ const (
 	USD  = 2
 	PFCT = 23
 
-	SnapshotEvery   = 144
-	HolderPerBlock  = 4500 * 1e8 // PEG per block for asset holders (PIP-12), paid x144 at snapshots
-	DevPerBlock     = 2000 * 1e8 // PEG per block for developers (PIP-16)
-	LegacyBank      = 5000 * 1e8 // PEG convertible per block while conversions into PEG are bank-limited
-	TopHolders      = 100
-	SaltWindowSecs  = 12 * 3600
-	MaxInt64        = uint64(1<<63 - 1)
+	SnapshotEvery  = 144
+	HolderPerBlock = 4500 * 1e8 // PEG per block for asset holders (PIP-12), paid x144 at snapshots
+	DevPerBlock    = 2000 * 1e8 // PEG per block for developers (PIP-16)
+	LegacyBank     = 5000 * 1e8 // PEG convertible per block while conversions into PEG are bank-limited
+	TopHolders     = 100
+	SaltWindowSecs = 12 * 3600
+	MaxInt64       = uint64(1<<63 - 1)
 )
 
 // Small-cap assets that became one-way destinations (plus PEG).
@@ -159,36 +159,36 @@ type txEntry struct {
 
 // BlockResult is everything the model expects of one block.
 type BlockResult struct {
-	Height   uint32
-	Rated    bool
-	Rates    map[int]uint64 // recorded rates (valid tickers only)
-	Deltas   []Delta
-	Bank     *[3]int64 // amount, used, requested
-	Skipped  bool      // legacy quirk: block committed with grading rows only
-	Notes    []string
+	Height  uint32
+	Rated   bool
+	Rates   map[int]uint64 // recorded rates (valid tickers only)
+	Deltas  []Delta
+	Bank    *[3]int64 // amount, used, requested
+	Skipped bool      // legacy quirk: block committed with grading rows only
+	Notes   []string
 	// ForeignSPRPaid lists staking winners (entry hashes) whose signing key is
 	// not the key of a top-100 PEG holder although the declared staker id is.
 	ForeignSPRPaid []string
 	// DustCandidates: at a snapshot with several equal top stakes and a
 	// non-zero rounding remainder, the addresses one of which receives it.
 	DustCandidates []factom.FAAddress
-	Ambiguous string // non-empty: the statement does not fix the outcome (e.g. tie at rank 100); comparison is skipped
+	Ambiguous      string // non-empty: the statement does not fix the outcome (e.g. tie at rank 100); comparison is skipped
 }
 
 // Ledger is the model state.
 type Ledger struct {
-	Cfg   world.Config
-	Opt   Options
-	W     *world.World
-	Bal   map[factom.FAAddress]map[int]*big.Int
-	Rates map[uint32]map[int]uint64
-	rated []uint32
-	Fates map[string]*TxFate
-	held  []heldBatch
-	prevWinners []string
+	Cfg               world.Config
+	Opt               Options
+	W                 *world.World
+	Bal               map[factom.FAAddress]map[int]*big.Int
+	Rates             map[uint32]map[int]uint64
+	rated             []uint32
+	Fates             map[string]*TxFate
+	held              []heldBatch
+	prevWinners       []string
 	snapPast, snapCur map[factom.FAAddress]map[int]*big.Int
-	haveSnapCur bool
-	executed map[string]bool
+	haveSnapCur       bool
+	executed          map[string]bool
 	// rolling average cache, as the daemon keeps it
 	avgData   map[int][]uint64
 	avgHeight uint32
@@ -226,7 +226,7 @@ func (l *Ledger) add(res *BlockResult, a factom.FAAddress, t int, amt *big.Int, 
 	}
 }
 
-func u(v uint64) *big.Int   { return new(big.Int).SetUint64(v) }
+func u(v uint64) *big.Int     { return new(big.Int).SetUint64(v) }
 func neg(v *big.Int) *big.Int { return new(big.Int).Neg(v) }
 
 // Supply returns the total of one asset over all addresses.
